@@ -367,16 +367,17 @@ func (s *goStub) Handle(_ context.Context, op string, content any) (*plugin.Resp
 // ---- level 2: HTTP stubs ----------------------------------------------------------------
 
 type httpStub struct {
-	onlyOp   string   // when set, the script applies to this op only; other ops are accepted unchanged and not recorded
-	notes    []string // proxy names of the CloseProxy notifications received while onlyOp is set
-	noteFail uint64   // bit i set: the i-th notification is answered with a failure (500 / reset / garbage, by i mod 3)
-	id       int
-	ln       net.Listener
-	srv      *http.Server
-	mu       sync.Mutex
-	sc       *script
-	rec      *recorder
-	addr     string
+	onlyOp    string        // when set, the script applies to this op only; other ops are accepted unchanged and not recorded
+	notes     []string      // proxy names of the CloseProxy notifications received while onlyOp is set
+	noteDelay time.Duration // every CloseProxy notification is answered only after this long (alive but slow)
+	noteFail  uint64        // bit i set: the i-th notification is answered with a failure (500 / reset / garbage, by i mod 3)
+	id        int
+	ln        net.Listener
+	srv       *http.Server
+	mu        sync.Mutex
+	sc        *script
+	rec       *recorder
+	addr      string
 }
 
 func newHTTPStub(id int, rec *recorder) (*httpStub, error) {
@@ -434,7 +435,11 @@ func (st *httpStub) ServeHTTP(w http.ResponseWriter, r *http.Request) {
 			idx := len(st.notes)
 			st.notes = append(st.notes, cp.ProxyName)
 			failing := idx < 64 && st.noteFail&(1<<uint(idx)) != 0
+			delay := st.noteDelay
 			st.mu.Unlock()
+			if delay > 0 {
+				time.Sleep(delay)
+			}
 			if failing {
 				w.Header().Set("Connection", "close")
 				switch idx % 3 {
